@@ -1,0 +1,22 @@
+//go:build verif && linux
+
+package tun
+
+import "golang.org/x/sys/unix"
+
+// Exports for the C17 verification harness (build tag verif only).  Add-only.
+
+// VerifC17ABI returns the x/sys/unix constants handleVirtioRead and gsoSplit
+// depend on, in the order the Coq checker expects: GSO_NONE, GSO_TCPV4,
+// GSO_TCPV6, GSO_UDP_L4, F_NEEDS_CSUM, IPPROTO_TCP, IPPROTO_UDP.
+func VerifC17ABI() []uint64 {
+	return []uint64{
+		unix.VIRTIO_NET_HDR_GSO_NONE,
+		unix.VIRTIO_NET_HDR_GSO_TCPV4,
+		unix.VIRTIO_NET_HDR_GSO_TCPV6,
+		unix.VIRTIO_NET_HDR_GSO_UDP_L4,
+		unix.VIRTIO_NET_HDR_F_NEEDS_CSUM,
+		unix.IPPROTO_TCP,
+		unix.IPPROTO_UDP,
+	}
+}
